@@ -254,6 +254,30 @@ func decodeCase(oid int, d []byte) string {
 	return withinBound("decode", b, len(d), func() { pgdump.DecodeType(d, oid) })
 }
 
+// exportCase: ToSQL of a one-cell table whose value is `depth` nested JSON objects {"k":{"k":…"x"}} (column jsonb) or
+// `depth` nested one-element arrays [[…nil]] (column int4[]).  The SQL text has 6 resp. 7 bytes per level, so the work
+// warranted by the value is linear in depth; fixes entry/05 (writeJSONMap) and entry/06 (writeSQLValue) removed the
+// per-level string building that made it quadratic (8000 levels: 210 MB / 243 MB allocated).
+func exportCase(which string, depth int) string {
+	var v interface{}
+	typ, per := 3802, 6
+	if which == "nestmap" {
+		v = "x"
+		for i := 0; i < depth; i++ {
+			v = map[string]interface{}{"k": v}
+		}
+	} else {
+		typ, per = 1007, 7
+		for i := 0; i < depth; i++ {
+			v = []interface{}{v}
+		}
+	}
+	dump := &pgdump.DumpResult{Databases: []pgdump.DatabaseDump{{Name: "d", OID: 5, Tables: []pgdump.TableDump{{
+		Name: "t", Columns: []pgdump.ColumnInfo{{Name: "a", TypID: typ, Type: pgdump.TypeName(typ)}}, RowCount: 1,
+		Rows: []map[string]interface{}{{"a": v}}}}}}}
+	return withinBound("export:"+which, bound{64, 4 << 20, 4000}, per*depth, func() { dump.ToSQL(io.Discard) })
+}
+
 func init() {
 	// these two families measure every operation against its own bound (above); of the generic envelope only a
 	// coarse backstop is kept: 2 KiB per input byte (the hex text of the arguments counted), no 64 MiB allowance
@@ -277,6 +301,8 @@ func init() {
 			return scanCase(args[0], unhex(args[1]))
 		case "decode":
 			return decodeCase(atoi(args[1]), unhex(args[2]))
+		case "export":
+			return exportCase(args[1], atoi(args[2]))
 		}
 		return "bad-args"
 	}))
